@@ -45,6 +45,28 @@ def _partition_job(job):
     return [(fn, repr(shape), r.kind, str(r.detail), r.result) for r in res]
 
 
+def _prop_job(shape):
+    def call(w, it, f):
+        g = it.module_global(w.repo.modules["pysmt.rewritings"], "propagate_toplevel")
+        return it.call(g, [f], {"env": w.env})
+    res = proc.run_proc(shape, call)
+    return [("propagate_toplevel", repr(shape), r.kind, str(r.detail), r.result) for r in res]
+
+
+def prop_shapes():
+    x, y, z = S("x", INT), S("y", INT), S("z", INT)
+    a = S("a")
+    five, three = ("lit", 5, INT), ("lit", 3, INT)
+    sh = [("And", ("Equals", x, five), ("Equals", x, y)), ("And", ("Equals", x, y), ("Equals", x, five)),
+          ("And", ("Equals", x, y), ("Equals", y, z), ("LT", x, three)), ("And", ("Equals", x, five), ("Equals", x, three)),
+          ("And", ("Equals", x, five), ("Equals", y, five), ("LT", x, y)), ("And", ("Equals", five, x), a),
+          ("And", ("Equals", x, y), ("Equals", y, five), ("Equals", z, x), ("LT", z, three)),
+          ("And", ("Equals", y, x), ("Equals", five, y), ("Or", a, ("LT", x, three))),
+          ("And", a, ("Or", ("Equals", x, five), ("LT", x, three))), ("Equals", x, five),
+          ("And", ("Equals", x, y), ("Equals", z, three), ("Equals", y, z), ("LT", ("Plus", x, y), z))]
+    return [Shape(t) for t in sh]
+
+
 def run(ctx):
     repo = get_repo()
     if not ctx.want("R2"):
@@ -69,15 +91,17 @@ def run(ctx):
               ("And", ("Or", a, b), ("And", c, ("Or", a, b))), ("Or", ("And", a, b), ("Or", c, ("And", a, b)))]:
         pj += [("conjunctive_partition", Shape(t)), ("disjunctive_partition", Shape(t))]
     outs += parallel_map(_partition_job, pj)
+    outs += parallel_map(_prop_job, prop_shapes())
     where = {"nnf": "pysmt.rewritings.NNFizer", "aig": "pysmt.rewritings.AIGer", "prenex": "pysmt.rewritings.PrenexNormalizer",
              "shannon": PROCS["shannon"][0], "selfsub": PROCS["selfsub"][0],
-             "conjunctive_partition": "pysmt.rewritings", "disjunctive_partition": "pysmt.rewritings"}
+             "conjunctive_partition": "pysmt.rewritings", "disjunctive_partition": "pysmt.rewritings",
+             "propagate_toplevel": "pysmt.rewritings"}
     counts = {}
     for res in outs:
         for name, shape, kind, detail, result in res:
             counts[(name, kind)] = counts.get((name, kind), 0) + 1
             key = "%s|%s" % (name, shape)
-            loc = "pysmt/rewritings.py" if name in ("nnf", "aig", "prenex", "conjunctive_partition", "disjunctive_partition") \
+            loc = "pysmt/rewritings.py" if name in ("nnf", "aig", "prenex", "conjunctive_partition", "disjunctive_partition", "propagate_toplevel") \
                 else "pysmt/solvers/qelim.py"
             if kind == "valid":
                 rs.ok({"procedure": name, "shape": shape, "result": result, "checked": detail})
